@@ -70,7 +70,7 @@ theorem iter_extends_stamps (c : Cfg ℚ) (s : St ℚ) (v : Verdict) :
   unfold iter
   split_ifs
   · right
-    unfold iterOk doSwitch calcH
+    unfold iterOk doSwitch' customSwitch doSwitch calcH
     simp only []
     split <;> (try split_ifs) <;> rfl
   · left
